@@ -241,7 +241,13 @@ impl VerifiableEncryptionProof {
                         }
                     }
                 });
-            let value = Option::<Scalar>::from(Scalar::from_be_bytes(&scalar_be_bytes))?;
+            // the proof only fixes the 32 bytes modulo the group order: the bytes of
+            // m + r also verify, so reduce instead of insisting on the canonical form
+            let mut wide = [0u8; 64];
+            for (w, b) in wide.iter_mut().zip(scalar_be_bytes.iter().rev()) {
+                *w = *b;
+            }
+            let value = Scalar::from_bytes_wide(&wide);
             if self.c2 - self.c1 * key.0 == G1Projective::GENERATOR * value {
                 return Some(value);
             }
